@@ -253,6 +253,58 @@ def self_chain(t):
     return list(reversed(names)) if t == V('self') and names else None
 
 
+def volatile_calls(ctx, t, kvars=()):
+    """Questions put to a collaborator (self.x.m(...), self.x.y.m(...)) inside term t whose arguments carry none of the given variables and whose answer changes
+    while the collaborator lives: every definition of m in the package reads - itself or through the methods it calls, three levels deep - a field that is
+    assigned or changed in place outside constructors.  -> [(rendered call, 'Class.field')]"""
+    M = ctx.M
+    self_ = V('self')
+    out = []
+
+    def mutable_reads(g, depth, seen):
+        if g.qn in seen or depth > 3:
+            return None
+        seen.add(g.qn)
+        for n in ast.walk(g.node):
+            if isinstance(n, ast.Attribute) and isinstance(n.value, ast.Name) and n.value.id == 'self' and isinstance(n.ctx, ast.Load) and g.cls is not None:
+                if g.cls.lookup(n.attr) is None and M.field_written_outside_init(g.cls, n.attr):
+                    return '%s.%s' % (g.cls.name, n.attr)
+        for n in ast.walk(g.node):
+            if isinstance(n, ast.Call) and isinstance(n.func, ast.Attribute):
+                tg = M.cha(n.func.attr)
+                if 1 <= len(tg) <= 3:
+                    for h in tg:
+                        r = mutable_reads(h, depth + 1, seen)
+                        if r:
+                            return r
+            elif isinstance(n, ast.Attribute) and isinstance(n.ctx, ast.Load):
+                for h in [h_ for c_ in M.classes.values() for nm_, h_ in c_.methods.items() if nm_ == n.attr and h_.is_property]:
+                    r = mutable_reads(h, depth + 1, seen)
+                    if r:
+                        return r
+        return None
+    for s_ in T.subterms(t):
+        if s_[0] != 'call' or s_[1][0] not in ('meth', 'fn') or not s_[2]:
+            continue
+        recv = s_[2][0]
+        if self_chain(recv) is None or recv == self_:
+            continue
+        if any(z[0] == 'var' and z[1] in kvars for a_ in list(s_[2][1:]) + [v_ for _, v_ in s_[3]] for z in T.subterms(a_)):
+            continue
+        if s_[1][0] == 'fn':
+            tg = [M.funcs.get(q_) for q_ in s_[1][1].split('|')]
+            if any(g is None or g.cls is None for g in tg):
+                continue
+        else:
+            tg = [g for g in M.cha(s_[1][1])]
+        if not tg:
+            continue
+        why = [mutable_reads(g, 0, set()) for g in tg]
+        if all(why):
+            out.append((fmt(s_)[:80], why[0]))
+    return out
+
+
 def slot_memos(ctx, fn, ps):
     """One-slot memoisation inside fn: the object remembers the last question and its answer in fields of its own (two fields, or one field holding a tuple),
         hit:  `self.T == g(params)` [and ...] -> return self.R (or a copy)        miss:  self.T = g(params) ; self.R = v ; return v (or a copy)
@@ -332,12 +384,16 @@ def slot_memos(ctx, fn, ps):
             foreign = sorted({w.fn.qn for f_ in roots for w in writers_of_attr(ctx.M, f_, owner=fn.cls.name if fn.cls else None)
                               if w.fn.qn != fn.qn and w.fn.name != '__init__' and not ctx.M.ctor_only(w.fn)})
             snaps = [(_snapshot(st[l_], fn), st[l_]) for _, st in rel for l_, _ in pins]
+            vol = [v_ for _, st in rel for v_ in volatile_calls(ctx, st[res[0]], kvars)] if not foreign else []
             if missing:
                 verdict = ('unsound', 'the remembered question %s leaves out %s, which the answer depends on' % (fmt(key)[:60], ', '.join(missing)))
             elif any(s_ is False for s_, _ in snaps):
                 bad_ = next(t_ for s_, t_ in snaps if s_ is False)
                 verdict = ('unsound', 'the remembered question %s is not a copy: it is the caller\'s own object (or a live view of it), which always equals itself - '
                                       'once the caller changes that object in place the old answer is handed out for the new content' % fmt(bad_)[:60])
+            elif vol:
+                verdict = ('unsound', 'the answer is asked of a collaborator, %s, whose reply follows %s as it changes; the remembered question %s records none of that and no '
+                                      'other method ever drops the slot: the first reply is handed out for as long as the question compares equal' % (vol[0][0], vol[0][1], fmt(key)[:40]))
             elif mutable:
                 verdict = ('other', 'the answer reads %s, which is rewritten after construction' % mutable)
             elif foreign:
@@ -369,7 +425,13 @@ def read_marker(ctx, p):
             from .model import CONTAINER_METHODS
             if any(c.startswith('meth:') and c[5:] not in CONTAINER_METHODS and ctx.M.cha(c[5:]) for c in e.callee):
                 return ''
+    try:
+        new_store = ctx.M.new_private_storage()
+    except Exception:
+        new_store = set()
     for c, v, _ in p.conds:
+        if new_store and any(s_[0] == 'attr' and s_[2] in new_store for s_ in T.subterms(c)):
+            return ''           # the path is selected by storage this tree introduces (a kept figure, a flag): what it stands for is not established here
         if any(s_[0] in ('havoc',) or (s_[0] == 'call' and s_[1][0] == 'fn' and s_[1][1].split('.')[-1].split('|')[0] in new) for s_ in T.subterms(c)):
             return ''
     return 'READ: '
@@ -745,6 +807,7 @@ def discarded_results(ctx, rule, prefixes, what):
     # the other classic: a callable created per iteration that reads the loop variable when it is finally CALLED.  Collected into a list (or built by an eager
     # comprehension) and applied after the loop, every one of them sees the last element.
     stale_derived_values(ctx, rule, prefixes, what)
+    kept_figures(ctx, rule, prefixes, what)
     from .rules.c16 import late_bound_in
     fns = [fn for fn in ctx.M.all_funcs() if fn.parent is None and any(fn.path.startswith(p_) for p_ in prefixes)]
     for site_, names_, src_ in late_bound_in(fns, with_yield=False):
@@ -942,6 +1005,56 @@ def _live_reference_only(M, c, D, attr, stmt):
     return bare > 0
 
 
+def kept_figures(ctx, rule, prefixes, what):
+    """A property that keeps what it computed in a slot of its object (`if self._v is None: self._v = f(self.a, self.b)`; `return self._v`) answers the current
+    figure only if every method path that changes a, b (or what selects the formula) also drops the slot.  Every class of the given modules, helper classes
+    included; the path-by-path argument of cache_invalidation."""
+    n = 0
+    for c in ctx.M.classes.values():
+        if not any(c.path.startswith(p_) for p_ in prefixes):
+            continue
+        for name, m in sorted(c.methods.items()):
+            if not m.is_property or '@' in name:
+                continue
+            # cheap pre-filter: the getter both tests and assigns a slot of self
+            stores = {t_.attr for n_ in ast.walk(m.node) if isinstance(n_, ast.Assign) for t_ in n_.targets
+                      if isinstance(t_, ast.Attribute) and isinstance(t_.value, ast.Name) and t_.value.id == 'self'}
+            if not stores:
+                continue
+            try:
+                ps = summarise(ctx, m, policy=default_policy, max_paths=200)
+            except Undecided:
+                continue
+            if any(p.outcome != 'return' for p in ps) or not ps:
+                continue
+            misses, hits, caches = split_cache_paths(ctx, m, ps)
+            caches = [c_ for c_ in caches if c_[1] in stores]
+            if not caches or not hits:
+                continue
+            n += 1
+            cache_invalidation(ctx, rule, c, caches, what + ' (the figure %s.%s keeps)' % (c.name, name))
+    ctx.holds(rule, what + ' (%d kept figures examined)' % n, None)
+
+
+def _stamp_validated(c, D):
+    """`if <test reading self.S>: self.D = <fresh>; self.S = <new stamp>` in a method of the class: D is validated against a stamp at the point of use"""
+    def selfattrs(n, store=None):
+        return {x.attr for x in ast.walk(n) if isinstance(x, ast.Attribute) and isinstance(x.value, ast.Name) and x.value.id == 'self'
+                and (store is None or isinstance(x.ctx, ast.Store) == store)}
+    for name, m in c.methods.items():
+        if name == '__init__':
+            continue
+        for k in ast.walk(m.node):
+            if isinstance(k, ast.If):
+                tested = selfattrs(k.test) - {D}
+                assigned = set()
+                for b_ in k.body:
+                    assigned |= selfattrs(b_, store=True)
+                if D in assigned and tested & assigned:
+                    return '%s.%s: self.%s' % (c.name, name, sorted(tested & assigned)[0])
+    return None
+
+
 def stale_derived_values(ctx, rule, prefixes, what):
     """A stored figure computed from other fields must be recomputed by whoever changes those fields afterwards: a setter (or any method) that assigns a field
     some derived field depends on, and neither reassigns the derived field, nor calls a method of the object that does, nor replaces the whole object, leaves
@@ -972,6 +1085,10 @@ def stale_derived_values(ctx, rule, prefixes, what):
             if not maintained and not new_figure:
                 continue
             if not ok and _live_reference_only(M, c, D, attr, s):
+                continue
+            if not ok and _stamp_validated(c, D):
+                ctx.undecided(rule, what, fn.site(s), '%s.%s is thrown away by its reader whenever a stamp the reader recomputes differs from the one stored beside it (%s): whether that stamp changes '
+                              'with every change of %s.%s is an argument about the stamp\'s values, not made here' % (c.name, D, _stamp_validated(c, D), objtxt, attr))
                 continue
             if not ok:
                 ctx.violation(rule, what, fn.site(s), '%s assigns %s.%s, from which %s.%s was computed (%s), and does not recompute it: the stored %s goes stale'
@@ -1065,7 +1182,15 @@ def cache_invalidation(ctx, rule, cls, caches, what):
                 gname = g.qn.split('.', 1)[1] if '.' in g.qn else g.qn
                 if gname not in droppers and g.name not in droppers:
                     bad.append('%s writes %s' % (g.qn, dep))
-        if bad:
+        sib_ = []
+        stale_b = _stale_cache_paths(ctx, cls, root, deps, figs, sib_) if bad else []
+        if bad and stale_b and sib_:
+            # contradiction: one public method of the class changes an input and drops the kept figure in the same step, another changes an input and leaves it
+            ok_all = False
+            for qn_, cond_, flds_, site_ in stale_b[:4]:
+                ctx.violation(rule, what, site_, '%s changes %s on path [%s] and keeps the cached %s, which was computed from it, while %s drops it in the same step as it changes %s: the next reader is handed the old figure'
+                              % (qn_, ', '.join(flds_), cond_[:120], fmt(loc)[:40], sib_[0][0], sib_[0][1]), key='%s|cache-stale|%s|%s' % (rule, root, qn_))
+        elif bad:
             ok_all = False
             ctx.undecided(rule, what, cls.path, 'the cached %s is computed from %s; %s without dropping the cache in the same step - whether an earlier step always did is not decided here'
                           % (fmt(loc)[:60], sorted(deps), '; '.join(sorted(set(bad))[:3])))
@@ -1083,7 +1208,7 @@ def cache_invalidation(ctx, rule, cls, caches, what):
     return ok_all
 
 
-def _stale_cache_paths(ctx, cls, root, deps, figs):
+def _stale_cache_paths(ctx, cls, root, deps, figs, siblings=None):
     self_ = V('self')
     out = []
     for name, m in sorted(cls.methods.items()):
@@ -1096,10 +1221,17 @@ def _stale_cache_paths(ctx, cls, root, deps, figs):
         for p in normal(ps):
             ws = heap_writes(p, into_loops=False)
             if any(loc_attr(w.loc) == root for w in ws):
+                if siblings is not None:
+                    d_ = sorted({w.loc[2] for w in ws if w.loc[0] == 'attr' and w.loc[1] == self_ and w.loc[2] in deps and w.loc[2] != root})
+                    if d_:
+                        siblings.append((m.qn, ', '.join(d_)))
                 continue
             post = {}
             for w in ws:
                 if w.loc[0] == 'attr' and w.loc[1] == self_ and w.loc[2] in deps and w.value is not None:
+                    if same(p, w.value, w.loc) or any(c_[0] == 'cmp' and ((c_[1] == '==' and v_) or (c_[1] == '!=' and not v_)) and {c_[2], c_[3]} == {w.value, w.loc}
+                                                      for c_, v_, _s in p.conds):
+                        continue        # re-assigning what it already holds (`if price != self.price: drop` ... `self.price = price`)
                     post[w.loc] = w.value
             if not post:
                 continue
@@ -1237,7 +1369,7 @@ def loc_attr(loc):
 
 
 def cond_str(path):
-    return ' & '.join(('' if v else 'not ') + '(' + T.fmt(c) + ')' for c, v, _ in path.conds) or 'true'
+    return T.FStr(' & '.join(('' if v else 'not ') + '(' + T.fmt(c) + ')' for c, v, _ in path.conds) or 'true')
 
 
 def find_terms(t, pred):
